@@ -83,37 +83,38 @@ type Event struct {
 	IndexN  json.RawMessage `json:"index"`
 
 	// data
-	Item   Item    `json:"item"`
-	Item2  Item    `json:"item2"`
-	Key    Item    `json:"key"`
-	Cond   OptAst  `json:"cond"`
-	Upd    Ast     `json:"upd"`
-	Names  StrMap  `json:"names"`
-	Values Item    `json:"values"`
-	Rvf    bool    `json:"rvf"`
-	Retold bool    `json:"retold"`
-	Kind   string  `json:"kind"`
-	Kc     Ast     `json:"kc"`
-	Filter OptAst  `json:"filter"`
-	Fwd    bool    `json:"fwd"`
-	Limit  OptInt  `json:"limit"`
-	Esk    OptKey  `json:"esk"`
-	Del    bool    `json:"del"`
-	Mode   string  `json:"mode"`
-	MKind  string  `json:"mkind"`
-	Text   []int   `json:"text"`
-	ID     string  `json:"id"`
-	Verdict bool   `json:"verdict"`
-	Attr   string  `json:"attr"`
-	Val    *Value  `json:"val"`
-	WReqs  []WriteReq `json:"-"`
-	GReqs  []GetReq   `json:"-"`
-	Reqs   json.RawMessage `json:"reqs"`
+	Item    Item            `json:"item"`
+	Item2   Item            `json:"item2"`
+	Key     Item            `json:"key"`
+	Proj    []string        `json:"proj"`
+	Cond    OptAst          `json:"cond"`
+	Upd     Ast             `json:"upd"`
+	Names   StrMap          `json:"names"`
+	Values  Item            `json:"values"`
+	Rvf     bool            `json:"rvf"`
+	Retold  bool            `json:"retold"`
+	Kind    string          `json:"kind"`
+	Kc      Ast             `json:"kc"`
+	Filter  OptAst          `json:"filter"`
+	Fwd     bool            `json:"fwd"`
+	Limit   OptInt          `json:"limit"`
+	Esk     OptKey          `json:"esk"`
+	Del     bool            `json:"del"`
+	Mode    string          `json:"mode"`
+	MKind   string          `json:"mkind"`
+	Text    []int           `json:"text"`
+	ID      string          `json:"id"`
+	Verdict bool            `json:"verdict"`
+	Attr    string          `json:"attr"`
+	Val     *Value          `json:"val"`
+	WReqs   []WriteReq      `json:"-"`
+	GReqs   []GetReq        `json:"-"`
+	Reqs    json.RawMessage `json:"reqs"`
 
 	// raw expression texts (expression lab / restriction checks): override the printer
-	CondText *[]int `json:"condtext,omitempty"`
-	UpdText  *[]int `json:"updtext,omitempty"`
-	KcText   *[]int `json:"kctext,omitempty"`
+	CondText   *[]int `json:"condtext,omitempty"`
+	UpdText    *[]int `json:"updtext,omitempty"`
+	KcText     *[]int `json:"kctext,omitempty"`
 	FilterText *[]int `json:"filtertext,omitempty"`
 
 	raw map[string]json.RawMessage
@@ -231,7 +232,7 @@ type Resp struct {
 	Unproc     []WriteReq   `json:"unproc"`
 	Responses  []TableItems `json:"responses"`
 	UnprocKeys []TableKeys  `json:"unprockeys"`
-	Fired []string `json:"fired"`
+	Fired      []string     `json:"fired"`
 	// Walk
 	Full    *Resp   `json:"full,omitempty"`
 	Pages   []*Resp `json:"pages,omitempty"`
